@@ -216,7 +216,7 @@ def gen_shufflin(rng, tier, np):
         if rng.random() < 0.35:
             ops.append(gen_malformed(rng, np))
         if rng.random() < 0.05:
-            ops.append(rng.choice(['shufflin %d 3 0 1' % np, 'shufflin %d 2 0 1 %s' % (np + 1, '| C ' * (np + 1)),
+            ops.append(rng.choice(['shufflin %d 3 0 1' % np, 'shufflin %d 2 0 1 %s' % (np, '| C ' * (np + 1)),
                                    'shufflin %d 1 0 1 %s' % (np, '| 0,%d,zz C ' % np * np), 'frobnicate %d | x' % np]))
     return ops
 
